@@ -65,6 +65,14 @@ form('plus-in-computed-key-chain', { ops: ['+'] }, F => `w.o${F.id()}[${F.loc()}
 form('tpl-in-computed-key', { ops: ['tpl'] }, F => `w.o${F.id()}[\`k\${${F.loc()}}\`]`)
 form('call-in-computed-key-this', { ops: ['trim'], needs: 'this' }, F => `this.o${F.id()}[${F.loc()}.trim()]`)
 form('call-in-computed-key-local', { ops: ['trim'] }, F => `${F.loc(F.o())}[${F.loc()}.trim()].p`)
+// unary operators applied to an effectful, instrumented operand
+for (const [tag, un] of [['void', 'void '], ['typeof', 'typeof '], ['not', '!'], ['neg', '-'], ['pos', '+'], ['bitnot', '~']]) {
+  form(`plus-${tag}-of-instrumented-call-operand`, { ops: ['+'] }, F => `${F.loc()} + ${un}w.id${F.id()}(${F.s()} + ${F.f()})`)
+}
+form('addassign-void-of-instrumented-call', { ops: ['+=', '+'] }, F => `${F.loc()} += void w.id${F.id()}(${F.s()} + ${F.f()})`)
+form('tpl-void-of-instrumented-call-subst', { ops: ['tpl', '+'] }, F => `\`\${${F.loc()}}|\${void w.id${F.id()}(${F.s()} + ${F.f()})}\``)
+form('concat-void-of-instrumented-call-arg', { ops: ['concat', 'trim'] }, F => `${F.loc()}.concat(void w.id${F.id()}(${F.f()}.trim()), ${F.s()})`)
+form('proto-apply-void-elem', { ops: ['concat', '+'] }, F => `String.prototype.concat.apply(${F.loc()}, [void w.id${F.id()}(${F.s()} + ${F.f()}), ${F.s()}])`)
 form('plus-cond-operand', { ops: ['+'] }, F => `${F.loc()} + (w.b${F.id()} ? ${F.s()} : ${F.f()})`)
 form('plus-mul-operand', { ops: ['+'] }, F => `${F.loc()} + w.i${F.id()} * 2`)
 form('plus-unary-operands', { ops: ['+'] }, F => `typeof ${F.loc()} + -w.i${F.id()}`)
@@ -119,6 +127,10 @@ form('addassign-world-member', { ops: ['+='] }, F => `w.o${F.id()}.p += ${F.s()}
 form('addassign-call-member', { ops: ['+='] }, F => `w.fobj${F.id()}().p += ${F.s()}`)
 form('addassign-computed-effect-key', { ops: ['+='] }, F => `${F.loc(F.o())}[${F.f()}] += ${F.s()}`)
 form('addassign-member-chain-computed', { ops: ['+='] }, F => `w.o${F.id()}.o2[w.k${F.id()}] += ${F.f()}`)
+form('addassign-paren-computed-effect-key', { ops: ['+='] }, F => `(${F.loc(F.o())}[${F.f()}]) += ${F.s()}`)
+form('addassign-paren-callresult-member', { ops: ['+='] }, F => `((w.fobj${F.id()}().p)) += ${F.s()}`)
+form('addassign-super-computed-effect-key', { ops: ['+=', '+'] }, F => `new (class extends Object { m() { super[${F.f()} + 'k'] += ${F.s()}; return Object.keys(this).join() } })().m()`)
+form('addassign-super-member', { ops: ['+='] }, F => `new (class extends Object { m() { super.p += ${F.f()}; return Object.keys(this).join() } })().m()`)
 form('addassign-update-key', { ops: ['+='] }, F => { const i = F.loc('w.i' + F.id()); return `${F.loc(F.o())}[${i}++] += ${F.s()} + ${i}` })
 form('addassign-this-chain', { ops: ['+='], needs: 'this' }, F => `this.o${F.id()}.p += ${F.s()}`)
 form('addassign-private-like-call-target', { ops: ['+=', 'tpl'] }, F => `w.fobj${F.id()}().q += \`\${${F.s()}}\``)
@@ -175,6 +187,13 @@ form('proto-call-ident', { ops: ['trim'] }, F => `String.prototype.trim.call(${F
 form('proto-call-args-spread', { ops: ['concat'] }, F => `String.prototype.concat.call(${F.loc()}, ${F.s()}, ...w.it${F.id()})`)
 form('proto-call-effect-this', { ops: ['concat'] }, F => `String.prototype.concat.call(${F.f()}, ${F.s()})`)
 form('proto-call-world-path', { ops: ['concat'] }, F => `w.X${F.id()}.prototype.concat.call(${F.loc()}, ${F.lit()})`)
+form('proto-call-computed-class-path', { ops: ['concat'], nodemand: true }, F => `w.o${F.id()}[w.k${F.id()}].prototype.concat.call(${F.loc()}, ${F.s()})`)
+form('proto-apply-computed-literal-class-path', { ops: ['trim'], nodemand: true }, F => `w.o${F.id()}['String'].prototype.trim.apply(${F.loc()}, [])`)
+form('proto-call-private-class-path', { ops: ['substring'], nodemand: true }, F => `new (class { #K = String; m(s) { return this.#K.prototype.substring.call(s, 1) } })().m(${F.s()})`)
+form('proto-call-callresult-class-path', { ops: ['concat'], nodemand: true }, F => `w.fobj${F.id()}().prototype.concat.call(${F.loc()}, ${F.s()})`)
+form('proto-call-paren-class-path', { ops: ['concat'], nodemand: true }, F => `(w.X${F.id()}).prototype.concat.call(${F.loc()}, ${F.s()})`)
+// the method is missing on the prototype object: reading `.call` of undefined throws BEFORE the arguments are evaluated (D35)
+form('proto-call-missing-method', { ops: ['concat'], nodemand: true, kf: 'D35' }, F => `Number.prototype.concat.call(${F.loc()}, ${F.f()})`)
 form('proto-apply-arraylit', { ops: ['concat'] }, F => `String.prototype.concat.apply(${F.loc()}, [${F.s()}, ${F.lit()}, ${F.f()}])`)
 form('proto-apply-empty', { ops: ['trim'] }, F => `String.prototype.trim.apply(${F.loc()}, [])`)
 form('proto-apply-variable-args', { ops: ['concat'], kf: 'D19' }, F => `String.prototype.concat.apply(${F.loc()}, w.arr${F.id()})`)
